@@ -201,6 +201,31 @@ def keyword_progs():
     return out
 
 
+def tilde_progs():
+    """a `~` in front of every operator (with and without operands, alone and followed by an instant action), and in
+    front of every wrapper: it must come back as that member's deferred flag — the step boundary of C03"""
+    out = []
+    fixed = {0: [], 1: ["fb"], 2: ["ib", "fb"], "dot": ["db()"], "t1": ["Vec<u8>"], "t4": []}
+    by = {o[0]: o for o in G.OPS}
+    for op in G.OPS:
+        for tail in (False, True):
+            for first in (False, True):
+                p = Prog()
+                ms = [] if first else [M(by["|>"], False, "N", ["f"])]
+                ms.append(M(op, True, "N", fixed[op[2]]))
+                if tail:
+                    ms.append(M(by["|>"], False, "N", ["g"]))
+                p.branches.append((None, "init", ms))
+                p.branches.append((None, "other", [M(by["|>"], True, "N", ["h"])]))
+                out.append(p)
+    for w in G.WRAPPERS:
+        p = Prog()
+        p.branches.append((None, "init", [M(by["|>"], False, "N", ["f"]), M(w, True, "W"), M(by["|>"], False, "N", ["g"])]))
+        p.branches.append((None, "other", []))
+        out.append(p)
+    return out
+
+
 def run(ctx, progs, kinds=("a0t0s0",)):
     """Returns list of (prog, kind, real) whose real structure differs from the intended one."""
     frags = sorted(set(f for p in progs for f in p.fragments()))
